@@ -130,8 +130,15 @@ def gen_cases(seed, chunk, n, tier):
                         kk["charge"] = charge
                     if oddpos:
                         kk["oddpos"] = oddpos[0][0]
-                    x = cls.from_dense(dense, [dict(enumerate(m)) if rng.random() < 0.5 else list(m) for m in maps],
-                                       duals, invalid_sectors="ignore", **kk)
+                    def _as_map(m):
+                        r = rng.random()
+                        if r < 0.35:
+                            return list(m)
+                        items = list(enumerate(m))
+                        if r < 0.7:
+                            rng.shuffle(items)  # a dict labelling whose insertion order is not ascending
+                        return dict(items)
+                    x = cls.from_dense(dense, [_as_map(m) for m in maps], duals, invalid_sectors="ignore", **kk)
                 res.append({"ok": [ser.enc_val(x)]})
                 y = x.to_dense()
                 res.append({"ok": [ser.enc_val(y)]})
